@@ -60,7 +60,6 @@ def run(ctx, w):
     from rules import c10, c17
     c10.ordered_subtractions(ctx, w, reach, "R9")
     ctx.floor("R9", 4, "differences in comparison arms")
-    sub_discharge(ctx, w, S, R, reach)
     # a saved cursor outside the screen is an out-of-range index after restore: the clamp of the re-layout (C17.S5)
     c17.clamp_rule(ctx, w, S, R)
     # the named invariant A5 (ordered, in-range margins) is itself discharged: DECSTBM validity and the reset of the margins on a height change
@@ -81,6 +80,35 @@ def run(ctx, w):
     T14 = c14.Trim(w, S, R)
     if T14.ok:
         shared.gc_verdict(ctx, w, S, T14, "R15")
+    # functions whose panic-freedom was just decided by interpretation need no separate subtraction argument
+    def clean(rule):
+        return not any(v["rule"] == rule for v in ctx.violations)
+    covered = {}
+    E_ = w.E
+    def reach_impl(roots):
+        out = set()
+        for f in E_.reachable_fns([r for r in roots if r]):
+            if S._impl_of(f) in (S.buffer_ty, S.line_ty) or f.startswith("<" + S.buffer_ty) or f.startswith("<" + S.line_ty):
+                out.add(f)
+        return out
+    if up and down and clean("R12"):
+        for f in reach_impl([up, down]):
+            covered[f] = "R12"
+    if clean("R13"):
+        edit = [fn for fn, fo in w.facts.fns.items() if (fo.get("impl_self") or {}).get("adt") == S.buffer_ty and fn in w.bodies and len(fo.get("inputs", [])) >= 2 and fo["inputs"][1]["s"] == "(usize, usize)"
+                and fo["inputs"][0]["s"].startswith("&mut ")]
+        for f in reach_impl(edit):
+            covered.setdefault(f, "R13")
+    if clean("R11"):
+        for fn, fo in w.facts.fns.items():
+            if (fo.get("impl_self") or {}).get("adt") == S.line_ty and fn in w.bodies and fo.get("inputs") and fo["inputs"][0]["s"].startswith("&mut ") and \
+                    tuple(i["s"] for i in fo["inputs"][1:]) in (("usize", "usize", "cell::Cell"), ("usize", "usize", "&pen::Pen"), ("core::ops::range::Range<usize>", "&pen::Pen"), ("usize", "cell::Cell")):
+                covered.setdefault(fn, "R11")
+    if T14.ok and clean("R15"):
+        for f in E_.reachable_fns([T14.buf_gc]):
+            if S._impl_of(f) == S.buffer_ty:
+                covered.setdefault(f, "R15")
+    sub_discharge(ctx, w, S, R, reach, covered)
 
 
 def c02_row_units(ctx, w, S, R):
@@ -662,7 +690,8 @@ AXIOMS = {
 }
 
 
-def sub_discharge(ctx, w, S, R, reach):
+def sub_discharge(ctx, w, S, R, reach, covered=None):
+    covered = covered or {}
     from rules import c05
     E = w.E
     ctx.rule("R10", "outside the reflow core every checked subtraction is discharged: by a controlling comparison, a comparison arm, a min-clamp, constants, or one of the named invariants A1-A9")
@@ -705,6 +734,9 @@ def sub_discharge(ctx, w, S, R, reach):
             ty = tm["l"].get("ty") if tm["l"]["k"] != "const" else tm["l"]["ty"]["s"]
             gs = [(shared.norm_term(c), v) for c, v in w.guards_of(fn, bl)]
             why = discharge(w, S, R, fn, impl, has_self, l, r, ty, gs, helper)
+            parent = fn.split("::{closure", 1)[0]
+            if not why and (fn in covered or parent in covered):
+                why = "%s: this function was interpreted for every small geometry / size without a panic" % covered.get(fn, covered.get(parent))
             n += 1
             key = "%s:%s" % (fn, shared.site_key(w, fn, (bl, b.n_stmts(bl))))
             if why:
